@@ -4337,6 +4337,16 @@ fn parse_text_qualifiers<'a>(
     }
 }
 
+/// Parses a numeric literal in a query, out of range or malformed literals are a syntax error
+fn parse_number<T: std::str::FromStr>(value: &str) -> Result<T, StamError> {
+    value.parse().map_err(|_| {
+        StamError::QuerySyntaxError(
+            format!("Invalid or out of range numeric value: '{}'", value),
+            "",
+        )
+    })
+}
+
 fn parse_dataoperator<'a>(
     opstr: &'a str,
     value: &'a str,
@@ -4351,21 +4361,17 @@ fn parse_dataoperator<'a>(
             "false" => DataOperator::False,
             _ => unreachable!("boolean should be true or false"),
         },
-        ("=", ArgType::Integer) => {
-            DataOperator::EqualsInt(value.parse().expect("str->int conversion should work"))
-        }
-        ("=", ArgType::Float) => {
-            DataOperator::EqualsFloat(value.parse().expect("str->float conversion should work"))
-        }
+        ("=", ArgType::Integer) => DataOperator::EqualsInt(parse_number(value)?),
+        ("=", ArgType::Float) => DataOperator::EqualsFloat(parse_number(value)?),
         ("!=", ArgType::String) => {
             DataOperator::Not(Box::new(DataOperator::Equals(Cow::Borrowed(value))))
         }
-        ("!=", ArgType::Integer) => DataOperator::Not(Box::new(DataOperator::EqualsInt(
-            value.parse().expect("str->int conversion should work"),
-        ))),
-        ("!=", ArgType::Float) => DataOperator::Not(Box::new(DataOperator::EqualsFloat(
-            value.parse().expect("str->float conversion should work"),
-        ))),
+        ("!=", ArgType::Integer) => {
+            DataOperator::Not(Box::new(DataOperator::EqualsInt(parse_number(value)?)))
+        }
+        ("!=", ArgType::Float) => {
+            DataOperator::Not(Box::new(DataOperator::EqualsFloat(parse_number(value)?)))
+        }
         ("!=", ArgType::Null) => DataOperator::Not(Box::new(DataOperator::Null)),
         ("!=", ArgType::Any) => DataOperator::Not(Box::new(DataOperator::Any)), //this is a tautology, always fails
         ("!=", ArgType::Bool) => match value {
@@ -4395,30 +4401,14 @@ fn parse_dataoperator<'a>(
                 .collect();
             DataOperator::Not(Box::new(DataOperator::Or(values)))
         }
-        (">", ArgType::Integer) => {
-            DataOperator::GreaterThan(value.parse().expect("str->int conversion should work"))
-        }
-        (">=", ArgType::Integer) => DataOperator::GreaterThanOrEqual(
-            value.parse().expect("str->int conversion should work"),
-        ),
-        ("<", ArgType::Integer) => {
-            DataOperator::LessThan(value.parse().expect("str->int conversion should work"))
-        }
-        ("<=", ArgType::Integer) => {
-            DataOperator::LessThanOrEqual(value.parse().expect("str->int conversion should work"))
-        }
-        (">", ArgType::Float) => DataOperator::GreaterThanFloat(
-            value.parse().expect("str->float conversion should work"),
-        ),
-        (">=", ArgType::Float) => DataOperator::GreaterThanOrEqualFloat(
-            value.parse().expect("str->float conversion should work"),
-        ),
-        ("<", ArgType::Float) => {
-            DataOperator::LessThanFloat(value.parse().expect("str->float conversion should work"))
-        }
-        ("<=", ArgType::Float) => DataOperator::LessThanOrEqualFloat(
-            value.parse().expect("str->float conversion should work"),
-        ),
+        (">", ArgType::Integer) => DataOperator::GreaterThan(parse_number(value)?),
+        (">=", ArgType::Integer) => DataOperator::GreaterThanOrEqual(parse_number(value)?),
+        ("<", ArgType::Integer) => DataOperator::LessThan(parse_number(value)?),
+        ("<=", ArgType::Integer) => DataOperator::LessThanOrEqual(parse_number(value)?),
+        (">", ArgType::Float) => DataOperator::GreaterThanFloat(parse_number(value)?),
+        (">=", ArgType::Float) => DataOperator::GreaterThanOrEqualFloat(parse_number(value)?),
+        ("<", ArgType::Float) => DataOperator::LessThanFloat(parse_number(value)?),
+        ("<=", ArgType::Float) => DataOperator::LessThanOrEqualFloat(parse_number(value)?),
         ("=", ArgType::List) => {
             let values: Vec<_> = value
                 .split("|")
